@@ -34,8 +34,9 @@ def experiment_level(ctx, nexp):
              # one stateful learner for two environments that share a chunk, on worker processes: each evaluation starts from the pristine learner
              dict(envs=[["group", 0, 0], ["group", 0, 1]], lrns=[["count", 1], ["kwargs"]], vals=[["seq"]], groups=[dict(n=8, seed=6, prefix="chunk", fan=2)], triples=[[0, 0, 0], [1, 0, 0], [0, 1, 0], [1, 1, 0]], conf=(2, 0, 0)),
              # one RejectionCB object for logged environments with different logging propensities
-             dict(envs=[["group", 0, 0], ["group", 1, 0]], lrns=[["count", 1]], vals=[["rej"]], groups=[dict(n=30, seed=3, prefix=None, fan=1, logged=True, logger="eps", na=2), dict(n=30, seed=4, prefix=None, fan=1, logged=True, na=4)],
-                  triples=[[0, 0, 0], [1, 0, 0]])]
+             dict(envs=[["group", 0, 0]] + [["group", 1, k] for k in range(10)], lrns=[["skew"]], vals=[["rej", 7], ["rej", 2]],
+                  groups=[dict(n=40, seed=3, prefix=None, fan=1, logged=True, logger="eps", na=2), dict(n=40, seed=4, prefix=None, fan=10, logged=True, na=3)],
+                  triples=[[k, 0, v] for v in range(2) for k in range(11)], conf=(1, 0, 0))]
     for _ in range(nexp): specs.append(expcore.gen_spec(rng, failures=True, batched=True))
     jobs, index = [], []
     for si, spec in enumerate(specs):
